@@ -39,6 +39,10 @@ def lib_crash(out):
         fn = line.rsplit("(", 1)[0]
         if fn.startswith(("runtime.", "panic", "runtime/", "sync.", "sync/", "internal/")):
             continue
+        if fn.startswith(("verif/", "main.")):
+            return None            # the harness itself
+        if "." not in fn.split("/")[0]:
+            continue               # standard library (net/url, encoding/json, strings ...): look at who called it
         return fn if fn.startswith(LIB) else None
     return None
 
